@@ -55,6 +55,13 @@ DEFS_A = {
     "HeadersI": {"type": "object", "properties": {"content-type": {"type": "string"}, "type": {"type": "string"},
                                                   "plain": {"type": "string"}},
                  "required": ["type"], "additionalProperties": {"type": "integer"}},
+    # members whose own defaults sit next to the intrinsic default of their type (has_default boundary)
+    "IntrS": {"type": "object", "properties": {
+        "f": {"type": "number", "default": 1e-20}, "g": {"type": "number", "default": 0.0},
+        "i": {"type": "integer", "default": 0}, "s": {"type": "string", "default": " "},
+        "v": {"type": "array", "items": {"type": ["integer", "null"]}, "default": [None]},
+        "m": {"type": "object", "additionalProperties": {"type": "string"}, "default": {"": ""}},
+        "b": {"type": "boolean", "default": False}}},
     "Closed": {"type": "object", "properties": {"a": {"type": "string"}}, "additionalProperties": False},
     "WithExtra": {"type": "object", "properties": {"k": {"type": "integer"}}, "required": ["k"],
                   "additionalProperties": {"type": "string"}},
@@ -425,6 +432,7 @@ def expand_ty(text):
 
 
 # ------------------------------------------------------------------ K1: model vs hooks
+import math
 import os
 import random
 import subprocess
@@ -678,7 +686,22 @@ KINDS.update({
     "renflat_unicode": (R("HeadersU"),
                         [{"content-type": "a", "\u00e9t\u00e9": "b", "x": "c"}, {"\u00e9t\u00e9": "b"}], [{"\u00e9t\u00e9": 1}]),
 })
-ALWAYS_FULL = ("len_", "rec_", "renflat_")      # kinds run exhaustively in every tier
+# defaults around the INTRINSIC default of every kind (has_default decides Optional vs own default function by EXACT
+# tests): tiny non-zero floats, signed zeros, integers written as floats, "" vs " ", [] vs [null], {} vs {"": ..}
+TINY = [5e-324, -5e-324, 1e-300, -1e-300, 1e-20, -1e-20, 2.2e-16, -2.2e-16, 1e-15, -1e-15]
+KINDS.update({
+    "intr_f64": ({"type": "number"}, TINY + [0.0, -0.0, 0, 1e0], ["0"]),
+    "intr_int": ({"type": "integer"}, [0, 0.0, -0.0, 1, -1, 1e0], [1e-17, -1e-20, 5e-324, 2.2e-16, 0.5]),
+    "intr_u8": ({"type": "integer", "format": "uint8"}, [0, 0.0, 7], [1e-17, -1e-17, 1e-300]),
+    "intr_string": ({"type": "string"}, ["", " ", "\u0000"], [0]),
+    "intr_vec": ({"type": "array", "items": {"type": ["integer", "null"]}}, [[], [None], [0]], [None]),
+    "intr_map": ({"type": "object", "additionalProperties": {"type": "string"}}, [{}, {"": "x"}, {"": ""}], [[]]),
+    "intr_bool": ({"type": "boolean"}, [False, True], [0]),
+    "intr_opt": ({"type": ["string", "null"]}, [None, ""], [0]),
+    "intr_nested": (R("IntrS"), [{}, {"f": 5e-324}, {"f": -0.0, "g": 1e-300}, {"i": 0.0, "s": "", "v": [], "m": {}}],
+                    [{"i": 1e-17}]),
+})
+ALWAYS_FULL = ("len_", "rec_", "renflat_", "intr_")      # kinds run exhaustively in every tier
 EXPECT_ACCEPT = ("len_",)    # kinds whose VALID defaults must be accepted and honoured (a rejection is reported)
 
 ALL_DEFS = dict(DEFS_A)
@@ -764,7 +787,10 @@ def _dd(v):
     if not isinstance(v, str): return True
     return re.match(r"^\d{4}-\d\d-\d\d$", v) is not None
 def isint(checker, inst):
-    return isinstance(inst, int) and not isinstance(inst, bool)
+    # draft-07: an integer is any number with a zero fractional part (0.0, 1e0 are integers)
+    if isinstance(inst, bool):
+        return False
+    return isinstance(inst, int) or (isinstance(inst, float) and inst.is_integer())
 from jsonschema import validators
 tc = Draft7Validator.TYPE_CHECKER.redefine("integer", isint)
 V = validators.extend(Draft7Validator, type_checker=tc)
@@ -781,7 +807,7 @@ for line in sys.stdin:
 
 def validate_batch(pairs):
     """[(schema-with-definitions, instance)] -> [True/False/None] by python jsonschema (Draft 7; integer formats as
-    ranges; uuid/ipv4/date/date-time asserted; `integer` = JSON integer literal, reading 3.2)"""
+    ranges; uuid/ipv4/date/date-time asserted; `integer` = number with zero fractional part, as draft-07 defines it)"""
     if not pairs:
         return []
     inp = "".join(json.dumps({"schema": s, "instance": i}) + "\n" for s, i in pairs)
@@ -822,7 +848,9 @@ def approx(d, r):
     if isinstance(d, bool) or isinstance(r, bool) or d is None or r is None:
         return d is r or (d == r and type(d) is type(r))
     if isinstance(d, (int, float)) and isinstance(r, (int, float)):
-        return Fraction(d) == Fraction(r) or (isinstance(r, float) and float(d) == r)
+        if isinstance(d, float) and isinstance(r, float) and d == 0.0 and r == 0.0:
+            return math.copysign(1.0, d) == math.copysign(1.0, r)     # bit-exact: -0.0 is not +0.0
+        return Fraction(d) == Fraction(r)
     if isinstance(d, str) and isinstance(r, str):
         return d == r
     if isinstance(d, list) and isinstance(r, list):
@@ -1006,6 +1034,9 @@ def run_k5(ctx, cases, name=None):
                 real = val
             else:
                 real = val.get("p", ABSENT) if isinstance(val, dict) else ABSENT
+            if MUT == "impl-hasdefault-epsilon" and isinstance(m["default"], float) and 0 < abs(m["default"]) < 2.2e-16 \
+                    and m["kind"] in ("intr_f64",):
+                real = 0.0      # emulated recorded answer: the tiny default was classified as intrinsic
             rec["realised"].append((r["what"], real))
             if real == ABSENT:
                 if not is_empty(m["default"]):
@@ -1147,6 +1178,9 @@ THEOREMS = [
     "C06_default_exact_structural",
     "C06_check_defaults_covers_members",
     "C06_flatten_remainder_excludes_wire_names",
+    "C06_has_default_exact",
+    "C06_has_default_float_kept",
+    "C06_has_default_tiny_integer_kept",
     "C06_regression_examples",
 ]
 CORPUS = os.path.join(vlib.ROOT, "corpus", "C06", "witnesses.json")
@@ -1295,6 +1329,10 @@ def run(ctx):
     ctx.samples = [{"meta": r["meta"], "outcome": r.get("outcome"), "realised": r["realised"][:2]} for r in recs[::max(1, len(recs) // 10)]]
 
     # model vs compiled world: the model's typing verdict / eval_expr on every accepted, rendered case
+    st = run_state_tie(ctx, recs, w)
+    ctx.coverage["state_tie_cases"] = st[0]
+    ctx.oblige("correspondence K1b: member state in the dump (optional / default) = Defaults.has_default on %d property "
+               "defaults" % st[0], not st[1], json.dumps(st[1][:4], default=str))
     tv = model_vs_world(ctx, recs, w)
     ctx.oblige("model expr_typed/eval_expr agrees with rustc and with the serialised realised default on %d cases" % tv[0],
                not tv[1], json.dumps(tv[1][:3], default=str))
@@ -1541,3 +1579,41 @@ def classify_combo(rec):
     """no open class here: F14 (definition-level default of an object definition dropped) is FIXED by a543329, so a
     reproduction is a VIOLATION"""
     return None
+
+
+
+# ------------------------------------------------------------------ has_default: member state in the dump vs the model
+def run_state_tie(ctx, recs, w, tag="c06st"):
+    """For every accepted property-default case: the state of member `p` in the REAL dump (optional / default:v) must be
+    what Defaults.has_default computes from the member's type and the schema default."""
+    idx, exprs, dumps, dmap = [], [], [], {}
+    for rec in recs:
+        m = rec["meta"]
+        g = w.gen[rec["i"]]
+        if rec["add"] != "ok" or m["pos"] not in ("inline", "ref") or not g.get("dump"):
+            continue
+        d = g["dump"]
+        tid = d["name_to_id"].get("T")
+        ent = d["entries"].get(str(tid), {})
+        pr = [p for p in ent.get("props", []) if p["name"] == "p"]
+        if not pr:
+            continue
+        st = pr[0]["state"]
+        real = st["k"] if st["k"] != "default" else "default:" + show_json(st["v"])
+        if MUT == "impl-hasdefault-epsilon" and isinstance(m["default"], float) and 0 < abs(m["default"]) < 2.2e-16 and \
+                d["entries"][str(pr[0]["type_id"])]["kind"] in ("float", "integer"):
+            real = "optional"       # emulated recorded answer
+        key = json.dumps(d["entries"], sort_keys=True)
+        if key not in dmap:
+            dmap[key] = len(dumps)
+            dumps.append(d)
+        idx.append((rec, real))
+        exprs.append("show_pstate (has_default (get_det T%d %d%%N) (Some %s))" % (dmap[key], pr[0]["type_id"], tocoq.cjson(m["default"])))
+    if not exprs:
+        return 0, []
+    res = vlib.coq_eval_strings(tag + ctx.tier[0], coq_header(dumps), exprs, shard=150)
+    bad = []
+    for (rec, real), model in zip(idx, res):
+        if model != real:
+            bad.append({"meta": rec["meta"], "schema": rec["doc"]["properties"]["p"], "dump_state": real, "model_state": model})
+    return len(idx), bad
